@@ -136,6 +136,7 @@ type vEvent struct {
 func VerifC19Trigger() {
 	kind := vPickKind(vndParam("kinds"))
 	w := vNewWorld(vndParam("cap"), kind, vndParam("fam"), Options{})
+	w.allowDelWrite = true
 	var events []vEvent
 	clbk := func(r Reader) {
 		e := vEvent{off: r.Index(), del: r.IsDelete()}
